@@ -570,6 +570,11 @@ class RandMaxVar(MaxVar):
             return pt_eval.ravel()
 
         def _evaluate_logpdf(theta):
+            # The acquisition density is restricted to the bounds of the surrogate model
+            theta_flat = np.ravel(theta)
+            for idx_param, bound in enumerate(gp.bounds):
+                if not bound[0] <= theta_flat[idx_param] <= bound[1]:
+                    return -np.inf
             val_pdf = self.evaluate(theta)
             if val_pdf == 0:
                 return -np.inf
